@@ -344,6 +344,10 @@ pub struct World {
     /// by that caller) and imports a path that does not exist (an error): part of the process's history
     #[serde(default)]
     pub misuse_before: bool,
+    /// the path handed to the library is the bare, RELATIVE file name (the current working directory
+    /// of the process is the directory the file lives in), instead of an absolute path
+    #[serde(default)]
+    pub relative_name: bool,
     /// history of the *process*: worlds the same thread ran through earlier (a long-lived
     /// exporter/importer). Their own verdicts are not judged here.
     #[serde(default)]
@@ -503,9 +507,13 @@ fn do_import(path: &std::path::Path, via_lib: bool) -> ImportRes {
 
 fn fired_split(f: &BTreeMap<&'static str, u64>) -> (u64, u64, u64, u64) {
     let g = |k: &str| f.get(k).copied().unwrap_or(0);
-    let hard_w = g("write_err") + g("write_err_sticky") + g("enospc") + g("open_write_err") + g("write_after_sticky") + g("fsync_err");
+    // a lock request that would never be granted counts as a hard fault for the verdict on the
+    // operation's result (it gets a finding of its own: the operation would hang); a refused
+    // non-blocking request is the environment saying no
+    let locks = g("flock_would_block") + g("flock_would_block_forever");
+    let hard_w = g("write_err") + g("write_err_sticky") + g("enospc") + g("open_write_err") + g("write_after_sticky") + g("fsync_err") + locks;
     let soft_w = g("short_write") + g("write_eintr") + g("enospc_short") + g("open_eintr");
-    let hard_r = g("read_err") + g("read_err_sticky") + g("open_read_err");
+    let hard_r = g("read_err") + g("read_err_sticky") + g("open_read_err") + locks;
     let soft_r = g("short_read") + g("read_eintr") + g("open_eintr") + g("stat_size_lied");
     (hard_w, soft_w, hard_r, soft_r)
 }
@@ -667,6 +675,13 @@ fn run_world_inner(w: &World) -> Obs {
     seams::install_plan(Plan::default());
     seams::enter_party_env(w.env_flip.clone());
     let (path, pkey) = seams::sim_path_bytes(w.file_name.as_deref().unwrap_or(b"circuit.bristol.txt"));
+    seams::enter_sim_cwd(w.relative_name);
+    let path = if w.relative_name {
+        use std::os::unix::ffi::OsStringExt;
+        std::path::PathBuf::from(std::ffi::OsString::from_vec(w.file_name.clone().unwrap_or(b"circuit.bristol.txt".to_vec())))
+    } else {
+        path
+    };
     let pstr: &str = &pkey;
     let refpath = seams::sim_path("reference.txt");
     seams::disk_remove(pstr);
@@ -859,6 +874,9 @@ fn run_world_inner(w: &World) -> Obs {
             }
             let (hw, sw, _, _) = fired_split(&fired);
             hard_w = hw;
+            if fired.get("flock_would_block_forever").copied().unwrap_or(0) > 0 {
+                obs.findings.push(finding("export_blocks_forever", "", "the exporter asked for a blocking advisory lock on a file that another process keeps locked: it would never return".into()));
+            }
             if hw + sw > 0 {
                 obs.nontrivial = true;
             }
@@ -947,6 +965,9 @@ fn run_world_inner(w: &World) -> Obs {
     let (_, _, hard_r, soft_r) = fired_split(&fired);
     if hard_r + soft_r > 0 {
         obs.nontrivial = true;
+    }
+    if fired.get("flock_would_block_forever").copied().unwrap_or(0) > 0 {
+        obs.findings.push(finding("import_blocks_forever", "", "the importer asked for a blocking advisory lock on a file that another process keeps locked: it would never return".into()));
     }
     seams::install_plan(Plan::default());
     match r {
@@ -1516,7 +1537,7 @@ static NSYNC_OF_LAST_REFERENCE: std::sync::atomic::AtomicU64 = std::sync::atomic
 
 fn reference_export(prog: &ProgSpec, dedup: bool, keys: Keys) -> Option<(Vec<u8>, u64, u64)> {
     // fault-free export to learn the size of the search space (write count, bytes)
-    let w = World { program: Some(prog.clone()), dedup, keys, export_plan: Plan::default(), corruptions: vec![], import_plan: Plan::default(), via_lib: false, s5: None, raw_text: None, prior: vec![], earlier: vec![], file_name: None, stdio_broken: None, outside_replace: None, outside_keeps_mtime: false, env_flip: vec![], pipe: false, plain_build: false, misuse_before: false };
+    let w = World { program: Some(prog.clone()), dedup, keys, export_plan: Plan::default(), corruptions: vec![], import_plan: Plan::default(), via_lib: false, s5: None, raw_text: None, prior: vec![], earlier: vec![], file_name: None, stdio_broken: None, outside_replace: None, outside_keeps_mtime: false, env_flip: vec![], pipe: false, plain_build: false, misuse_before: false, relative_name: false };
     seams::reset_world();
     let w2 = w.clone();
     run_party(keys, move || {
@@ -1563,6 +1584,7 @@ pub fn make_world(plan: &CasePlan, seed: u64, idx: u64) -> (World, &'static str,
         pipe: false,
         plain_build: false,
         misuse_before: false,
+        relative_name: false,
     };
     // the file's name and the state of the process's stdout/stderr are dimensions of every family
     if family != "s5" && p.chance(1, 3) {
@@ -1701,6 +1723,13 @@ pub fn make_world(plan: &CasePlan, seed: u64, idx: u64) -> (World, &'static str,
     }
     if family != "sweep" && family != "s5" && w.program.is_some() && p.chance(1, 8) {
         w.misuse_before = true;
+    }
+    if family != "sweep" && family != "s5" && w.program.is_some() && w.outside_replace.is_none() && p.chance(1, 8) {
+        w.relative_name = true;
+    }
+    if family != "sweep" && family != "s5" && p.chance(1, 12) {
+        w.export_plan.locked_by_other = true;
+        w.import_plan.locked_by_other = true;
     }
     // the kind of file behind the path is a dimension of every family whose world has no stored
     // bytes to begin with (old data in a FIFO is read before the new data, by any importer)
@@ -2013,6 +2042,19 @@ fn run_sweep(base: &World, acc: &mut Acc) {
         }
     };
     go(base.clone(), acc);
+    // the file is named relative to the current directory; another process holds a lock on it
+    for via_lib in [false, true] {
+        let mut w = base.clone();
+        w.relative_name = true;
+        w.via_lib = via_lib && w.dedup && prog.consts.is_empty();
+        go(w, acc);
+    }
+    {
+        let mut w = base.clone();
+        w.export_plan.locked_by_other = true;
+        w.import_plan.locked_by_other = true;
+        go(w, acc);
+    }
     // another caller misused the library in this process before (a panic inside the exporter, caught)
     {
         let mut w = base.clone();
